@@ -17,6 +17,7 @@
 from __future__ import annotations
 
 import ast
+import copy
 from typing import Any, Callable, Iterable, Iterator
 
 from ..engine.absint import Obj, _Raise
@@ -214,7 +215,8 @@ class AgeInterp(RoleInterp):
 
     def get_attr(self, base: Any, attr: str, node: ast.AST) -> Any:
         if isinstance(base, SetV):
-            if attr in ("add", "remove", "discard", "copy", "difference_update", "difference", "clear"):
+            if attr in ("add", "remove", "discard", "copy", "difference_update", "difference", "clear",
+                        "intersection_update", "intersection", "update", "union"):
                 return ("setv", base, attr)
             raise AnalysisError(f"set.{attr} not modelled")
         if isinstance(base, list) and attr in ("remove", "copy", "clear"):
@@ -241,7 +243,20 @@ class AgeInterp(RoleInterp):
             if m == "clear":
                 s.items[:] = []
                 return None
-            keep = s.without([y for p in pos for y in self.iterate(p, node)])
+            others = [y for p in pos for y in self.iterate(p, node)]
+            if m in ("intersection_update", "intersection"):
+                both = [x for x in s.items if any(same(x, y) for y in others)]
+                if m == "intersection":
+                    return SetV(both)
+                s.items[:] = both
+                return None
+            if m in ("update", "union"):
+                tgt = s if m == "update" else SetV(s.items)
+                for y in others:
+                    if not tgt.has(y):
+                        tgt.items.append(y)
+                return None if m == "update" else tgt
+            keep = s.without(others)
             if m == "difference":
                 return SetV(keep)
             s.items[:] = keep
@@ -380,6 +395,35 @@ def resolve_local(fn: ast.AST, expr: ast.AST, params: Iterable[str] = ()) -> ast
             break
         expr = vals[0]
     return expr
+
+
+class _Rename(ast.NodeTransformer):
+    def __init__(self, name: str, value: ast.AST) -> None:
+        self.name, self.value = name, value
+
+    def visit_Name(self, node: ast.Name) -> ast.AST:  # noqa: N802
+        if node.id == self.name and isinstance(node.ctx, ast.Load):
+            return ast.copy_location(copy.deepcopy(self.value), node)
+        return node
+
+
+def unroll_literal_loops(stmts: list[ast.stmt], limit: int = 8) -> list[ast.stmt]:
+    """`for x in (a, b): body` -> body[x:=a]; body[x:=b] (plain name target, literal tuple / list of
+    side-effect-free element expressions, no break / continue / rebinding of x in the body)."""
+    out: list[ast.stmt] = []
+    for s in stmts:
+        if isinstance(s, ast.For) and isinstance(s.target, ast.Name) and isinstance(s.iter, (ast.Tuple, ast.List)) \
+                and 0 < len(s.iter.elts) <= limit and not s.orelse \
+                and not any(isinstance(n, (ast.Call, ast.Await, ast.Starred)) for e in s.iter.elts for n in ast.walk(e)) \
+                and not any(isinstance(n, (ast.Break, ast.Continue)) or (
+                    isinstance(n, ast.Name) and n.id == s.target.id and not isinstance(n.ctx, ast.Load))
+                    for b in s.body for n in ast.walk(b)):
+            for e in s.iter.elts:
+                for b in s.body:
+                    out.append(_Rename(s.target.id, e).visit(copy.deepcopy(b)))
+            continue
+        out.append(s)
+    return out
 
 
 def splice(source: str, edits: list[tuple[ast.AST, str]]) -> str:
